@@ -119,7 +119,7 @@ func (x *exec) note(what string) {
 }
 
 func (x *exec) failf(format string, a ...any) {
-	panic(runErr{structErr(format+" "+x.where(), a...)})
+	panic(runErr{structErr(format+" %s", append(append([]any{}, a...), x.where())...)})
 }
 
 func (x *exec) unsupported(format string, a ...any) {
